@@ -365,6 +365,21 @@ func runC14(c *Ctx, r *Run) {
 			}
 		})
 		if !ok {
+			// the standard-library form: subtle.XORBytes(chainKey, chainKey, other)
+			allInstrs(fn, func(in ssa.Instruction) {
+				call, isCall := in.(*ssa.Call)
+				if !isCall || !isCallToPkgFunc(call, "crypto/subtle", "XORBytes") || len(call.Call.Args) != 3 {
+					return
+				}
+				dst := paramFields(fn, call.Call.Args[0])
+				d := newDep(fn, call)
+				has := func(l string) bool { return d.has(call.Call.Args[1], l) || d.has(call.Call.Args[2], l) }
+				if containsField(dst, "recv.chainKey") && has(spec.peer) && (has("recv.chainKey") || has("recv.ourChainKey")) {
+					ok = true
+				}
+			})
+		}
+		if !ok {
 			// the combination moved into a helper: g(dst, src) storing dst[i] ^ src[i] into dst, called with the chain key and the other contribution
 			pur := newPurity(c)
 			allInstrs(fn, func(in ssa.Instruction) {
@@ -501,13 +516,19 @@ func runC14(c *Ctx, r *Run) {
 		// hmac.New(sha512.New, chaining)
 		keyed, okOrder, split := false, false, 0
 		var writes []*ssa.Call
-		allInstrs(ds, func(in ssa.Instruction) {
+		dsRegion := regionOf(ds)
+		eachDS := func(f func(ssa.Instruction)) {
+			for _, g := range dsRegion {
+				allInstrs(g, f)
+			}
+		}
+		eachDS(func(in ssa.Instruction) {
 			call, ok := in.(*ssa.Call)
 			if !ok {
 				return
 			}
 			if isCallToPkgFunc(call, "crypto/hmac", "New") && len(call.Call.Args) == 2 {
-				if call.Call.Args[1] == ssa.Value(ds.Params[1]) {
+				if callerVal(call.Call.Args[1]) == ssa.Value(ds.Params[1]) {
 					if f, ok := call.Call.Args[0].(*ssa.Function); ok && f.Pkg != nil && f.Pkg.Pkg.Path() == "crypto/sha512" && f.Name() == "New" {
 						keyed = true
 					}
@@ -518,9 +539,8 @@ func runC14(c *Ctx, r *Run) {
 			}
 		})
 		if len(writes) == 2 {
-			d := newDep(ds, nil)
-			first := d.labels(writes[0].Call.Args[0])
-			second := d.labels(writes[1].Call.Args[0])
+			first := depLabelsUp(writes[0].Call.Args[0])
+			second := depLabelsUp(writes[1].Call.Args[0])
 			okOrder = containsField(first, "Secp256k1Point") && containsField(second, "uint32") && !containsField(first, "uint32") && instrDominates(writes[0], writes[1])
 			// 4-byte big-endian index
 			okOrder = okOrder && dependsOn(writes[1].Call.Args[0], func(v ssa.Value) bool {
@@ -536,7 +556,7 @@ func runC14(c *Ctx, r *Run) {
 				return false
 			})
 		}
-		allInstrs(ds, func(in ssa.Instruction) {
+		eachDS(func(in ssa.Instruction) {
 			if sl, ok := in.(*ssa.Slice); ok {
 				if sl.High != nil {
 					if k, ok := constInt(sl.High); ok && k == 32 && sl.Low == nil {
@@ -706,6 +726,14 @@ func runC14(c *Ctx, r *Run) {
 				xorBlk = st.Block()
 			})
 			viaHelper := false
+			if xorBlk == nil {
+				allInstrs(fn, func(in ssa.Instruction) {
+					if call, ok := in.(*ssa.Call); ok && isCallToPkgFunc(call, "crypto/subtle", "XORBytes") && len(call.Call.Args) == 3 &&
+						containsField(paramFields(fn, call.Call.Args[0]), "recv.chainKey") {
+						xorBlk, viaHelper = call.Block(), true
+					}
+				})
+			}
 			if xorBlk == nil {
 				// the combination moved into a helper: a call handing recv.chainKey to a module function that XORs into its parameter
 				allInstrs(fn, func(in ssa.Instruction) {
